@@ -381,7 +381,7 @@ def renderer_world(ctx, eng, st, fam="text", dynamic=True):
     return P, self_, member, (sw, sh)
 
 
-@unit("C04", "common:BaseImage._renderer/size-setting-restored")
+@unit(("C04", "C07", "C11"), "common:BaseImage._renderer/size-setting-restored")
 def u_renderer_frame(ctx):
     obs = []
     for dynamic in (True, False):
@@ -404,5 +404,7 @@ def u_renderer_frame(ctx):
             got = s.H(self_)["_size"]
             goal = (got is member) if dynamic else Eq(got, fixed)
             eng.oblige(f"size-setting-unchanged@{kind}", s, goal, kind="exit", replay="C04.renderer")
+            eng.oblige(f"C07:size-setting-is-what-it-was@{kind}", s, goal, prop="C07", kind="exit", replay="C04.renderer")
+            eng.oblige(f"C11:size-setting-never-altered-by-rendering@{kind}", s, goal, prop="C11", kind="exit", replay="C04.renderer")
         obs += eng.obligations
     return obs
